@@ -76,7 +76,7 @@ PROPS = {
         assumptions=[],
     ),
     "C11": dict(
-        lean_modules=["PalomaModel.Props.C11"], gen=["Claims.lean"],
+        lean_modules=["PalomaModel.Props.C11"], gen=["Claims.lean", "Auth.lean"],
         harness_test="TestC11",
         extra_tests=[{"test": "TestC11Keeper", "dir": "C11K", "n_quick": 60, "n_thorough": 600}],
         n_quick=1500, n_thorough=20000, thorough_seeds=8,
